@@ -29,6 +29,8 @@ structure Val where
 /-- operation kinds of a body. `const`/`other` carry what the printed op carries besides operands and types. -/
 inductive OpKind
   | addi | muli | subi | extsi | trunci | shrsi | minsi | maxsi
+  | cmpi (pred : Nat)                     -- arith.cmpi, MLIR predicate number (eq ne slt sle sgt sge ult ule ugt uge)
+  | select                                -- arith.select
   | const (c : Int)                       -- arith.constant inside the body
   | other (name : String) (comm : Bool)   -- any other op; `comm` = has the xDSL `Commutative` trait
   deriving DecidableEq, Repr
@@ -42,12 +44,13 @@ def OpKind.commutative : OpKind → Bool
 /-- `type(op_a) is type(op_b)`: the Python class only, attributes (the constant's value) are not compared -/
 def OpKind.sameType : OpKind → OpKind → Bool
   | .const _, .const _ => true
+  | .cmpi _, .cmpi _ => true
   | .other n _, .other m _ => n == m
   | a, b => a == b
 
 /-- kinds without attributes: for these `sameType` is equality -/
 def OpKind.attrFree : OpKind → Bool
-  | .const _ | .other _ _ => false
+  | .const _ | .cmpi _ | .other _ _ => false
   | _ => true
 
 /-- an operand -/
@@ -93,15 +96,48 @@ def nullop (k : OpKind) (w : Nat) : Option Val :=
   | .const c => some ⟨w, BitVec.ofInt w c⟩
   | _ => none
 
+/-- `arith.cmpi` predicates -/
+def cmpPred (p : Nat) {w : Nat} (x y : BitVec w) : Option Bool :=
+  match p with
+  | 0 => some (x == y) | 1 => some (x != y)
+  | 2 => some (x.slt y) | 3 => some (x.sle y) | 4 => some (y.slt x) | 5 => some (y.sle x)
+  | 6 => some (x.ult y) | 7 => some (x.ule y) | 8 => some (y.ult x) | 9 => some (y.ule x)
+  | _ => none
+
+/-- binary ops whose operands have the result type -/
+def arithBin (k : OpKind) (w : Nat) (x y : Val) : Option Val :=
+  if hx : x.w = w then
+    if hy : y.w = w then (binop k (x.v.cast hx) (y.v.cast hy)).map (Val.mk w)
+    else none
+  else none
+
+/-- `arith.cmpi`: operands of one type, result i1 -/
+def cmpop (k : OpKind) (w : Nat) (x y : Val) : Option Val :=
+  match k with
+  | .cmpi p =>
+    if h : y.w = x.w then
+      if w = 1 then (cmpPred p x.v (y.v.cast h)).map fun b => ⟨1, BitVec.ofBool b⟩ else none
+    else none
+  | _ => none
+
+/-- `arith.select`: i1 condition, both values of the result type -/
+def ternop (k : OpKind) (w : Nat) (c x y : Val) : Option Val :=
+  match k with
+  | .select =>
+    if c.w = 1 then
+      if hx : x.w = w then
+        if hy : y.w = w then some ⟨w, if c.v.toNat = 1 then x.v.cast hx else y.v.cast hy⟩
+        else none
+      else none
+    else none
+  | _ => none
+
 /-- one op of declared result width `w` applied to operand values -/
 def evalOp (k : OpKind) (w : Nat) : List Val → Option Val
   | [] => nullop k w
   | [x] => unop k w x
-  | [x, y] =>
-    if hx : x.w = w then
-      if hy : y.w = w then (binop k (x.v.cast hx) (y.v.cast hy)).map (Val.mk w)
-      else none
-    else none
+  | [x, y] => (arithBin k w x y).orElse fun _ => cmpop k w x y
+  | [c, x, y] => ternop k w c x y
   | _ => none
 
 def lookup (env : List Val) : Ref → Option Val
@@ -320,6 +356,23 @@ def lowerResult (b : MBody) : MBody :=
   | some r => r.toMBody
   | none => b
 
+/-- `LowerLinalgBody` with fix FC18a (fixes/FC18a-lower-linalg-body-canonical-guard.diff): additionally the kernel
+op must be applied to the block arguments in order, produce the type of the output element, and its result
+must be what the body yields (`KBody.canonical`; in real IR the operand types are the block argument types
+as soon as the operands are the block arguments). -/
+def lowerLinalgBodyFixed (b : MBody) : Option Body :=
+  match b.ops with
+  | [.kern k operands opTypes resWidth] =>
+    if k.isParsable && (KBody.canonical ⟨b.args, k, operands, opTypes, resWidth, b.ret⟩) then
+      some (equivalentRegion k (opTypes ++ [resWidth]))
+    else none
+  | _ => none
+
+def lowerResultFixed (b : MBody) : MBody :=
+  match lowerLinalgBodyFixed b with
+  | some r => r.toMBody
+  | none => b
+
 /-! ## rescale -/
 
 structure RescaleParams where
@@ -367,10 +420,10 @@ def rescaleExpand (p : RescaleParams) (x : BitVec 32) : Option (BitVec 8) :=
     else none
   | _, _ => none
 
-/-- `postprocessing_simd_golden_model` for the element of channel `ch` (numpy: `data_in` int64, `np.int64`
+/-- `postprocessing_simd_golden_model` for the element `x` (any integer width `wi`) of channel `ch` (numpy: `data_in` int64, `np.int64`
 product, `np.int32` after the first shift, int32 arithmetic afterwards, `np.clip`). `none`: no parameter
 for the channel, or a shift outside 1..63. -/
-def rescaleSpec (p : RescaleParams) (ch : Nat) (x : BitVec 32) : Option (BitVec 32) :=
+def rescaleSpec {wi : Nat} (p : RescaleParams) (ch : Nat) (x : BitVec wi) : Option (BitVec 32) :=
   match p.shift[ch]?, p.multiplier[ch]? with
   | some s, some m =>
     if 1 ≤ s ∧ s ≤ 63 then
@@ -386,6 +439,68 @@ def rescaleSpec (p : RescaleParams) (ch : Nat) (x : BitVec 32) : Option (BitVec 
       let c1 := if var.slt mn then mn else var
       let c2 := if mx.slt c1 then mx else c1
       some c2
+    else none
+  | _, _ => none
+
+/-! ### `LowerRescale` with fix FC18c (fixes/FC18c-lower-rescale-golden-model.diff) -/
+
+/-- `len(set(values)) == 1`: one value for all channels -/
+def uniformParam : List Int → Option Int
+  | [] => none
+  | s :: ss => if ss.all (· == s) then some s else none
+
+/-- the ops the FIXED `LowerRescale` puts in place of `kernel.rescale : (i wi) -> i wr` (block arguments: input,
+output element; constants created in front of the generic). `none` = the pattern returns: per-channel
+(non-uniform) or missing multiplier/shift, or an input that is not narrower than 64 bits.
+64 bit up to the first shift (by shift - 1), 32 bit afterwards, conversion to the result type at the end. -/
+def rescaleBodyFixed (p : RescaleParams) (args : List Nat) : Option Body :=
+  match uniformParam p.shift, uniformParam p.multiplier with
+  | some s, some m =>
+    if args.getD 0 0 < 64 then
+      let wr := args.getD 1 0
+      let pre : List BOp :=
+        [ ⟨.extsi, [.val 0], 64⟩,
+          ⟨.subi, [.val 2, .outer 64 p.inputZp], 64⟩,
+          ⟨.muli, [.val 3, .outer 64 m], 64⟩,
+          ⟨.shrsi, [.val 4, .outer 64 (s - 1)], 64⟩,
+          ⟨.trunci, [.val 5], 32⟩ ]
+      let mid : List BOp :=
+        if p.doubleRound then
+          [ ⟨.cmpi 2, [.val 6, .outer 32 0], 1⟩,
+            ⟨.select, [.val 7, .outer 32 (-1), .outer 32 1], 32⟩,
+            ⟨.addi, [.val 6, .val 8], 32⟩ ]
+        else []
+      let t := 6 + mid.length
+      let post : List BOp :=
+        [ ⟨.shrsi, [.val t, .outer 32 1], 32⟩,
+          ⟨.addi, [.val (t + 1), .outer 32 p.outputZp], 32⟩,
+          ⟨.minsi, [.val (t + 2), .outer 32 p.maxInt], 32⟩,
+          ⟨.maxsi, [.val (t + 3), .outer 32 p.minInt], 32⟩ ]
+      let fin : List BOp :=
+        if wr < 32 then [⟨.trunci, [.val (t + 4)], wr⟩]
+        else if 32 < wr then [⟨.extsi, [.val (t + 4)], wr⟩]
+        else []
+      some ⟨args, pre ++ mid ++ post ++ fin, [.val (t + 4 + fin.length)]⟩
+    else none
+  | _, _ => none
+
+/-- the function computed by `rescaleBodyFixed` on an input of width `wi`, result of width `wr` (closed form) -/
+def rescaleExpandFixed {wi : Nat} (p : RescaleParams) (x : BitVec wi) (wr : Nat) : Option (BitVec wr) :=
+  match uniformParam p.shift, uniformParam p.multiplier with
+  | some s, some m =>
+    if wi < 64 then
+      let v : BitVec 64 := (x.signExtend 64 - BitVec.ofInt 64 p.inputZp) * BitVec.ofInt 64 m
+      let sh : BitVec 64 := BitVec.ofInt 64 (s - 1)
+      if sh.toNat < 64 then
+        let t : BitVec 32 := (v.sshiftRight sh.toNat).setWidth 32
+        let t := if p.doubleRound then t + (if t.slt 0 then BitVec.ofInt 32 (-1) else BitVec.ofInt 32 1) else t
+        let t := t.sshiftRight 1 + BitVec.ofInt 32 p.outputZp
+        let mx := BitVec.ofInt 32 p.maxInt
+        let mn := BitVec.ofInt 32 p.minInt
+        let c1 := if t.slt mx then t else mx
+        let c2 := if mn.slt c1 then c1 else mn
+        some (c2.signExtend wr)
+      else none
     else none
   | _, _ => none
 
